@@ -9,6 +9,7 @@ CONSTANTS
   Faults <- BuildFaults
   OnlyFaulty = TRUE
   Grow = 50
+  Shadowing = FALSE
   ForceAfter = 0
 CONSTRAINT SizeBound
 INVARIANTS Balanced UsesBound EmitInv
